@@ -8,14 +8,16 @@ prop(
     design_ref="DESIGN.md 2/C09",
     stages=[
         dict(run="^TestPropSelect$",
-             quick=dict(checks=32000, shards=16, timeout=600),
+             quick=dict(checks=24000, shards=16, timeout=600),
              thorough=dict(checks=800000, shards=16, timeout=7200)),
     ],
     rule="1-4 rule{} blocks, each with 0-3 match and 0-3 ignore sub-blocks of 1-4 conditions over all nine kinds (path, name, kind, "
          "label, annotation, for, keep_firing_for, command, state; regexps from pools with partial-match traps, alternations, inner "
-         "anchors, flags) and one marker check with a distinct String() per block, x 1-2 rule files (1-2 groups, group labels half of "
+         "anchors, flags) and one marker check per block (distinct String() by default; in about 40% of the cases a block repeats an "
+         "earlier block's check definition verbatim, so pint's de-duplication by String() is exercised), x 1-2 rule files (1-2 groups, group labels half of "
          "the time, 1-3 rules over the small gen vocabulary) x 2-4 drawn (command, entry state) pairs from {lint, ci, watch} x {noop, added, "
-         "modified, moved}; the marker checks returned by config.GetChecksForEntry are compared with a reference evaluator of the "
+         "modified, moved}; each distinct marker check must be returned by config.GetChecksForEntry exactly once iff at least one block "
+         "carrying it applies; this is compared with a reference evaluator of the "
          "documented semantics that works from the generator's own model of the rules. Non-trivial: some rule block has a match and "
          "an ignore sub-block with >= 2 conditions each, and over the case at least one (rule, block, command, state) is selected "
          "and one rejected.",
